@@ -6,7 +6,7 @@ RULE = ("generated instruction sets (prefix-sharing/dotted/digit-leading mnemoni
         "wrappers, operator-like separators `{a} - {b}`, same-shape rule families of different width, literal-versus-expression "
         "overlaps, several sub-rule operands each readable literally or as an expression) and programs over them; each program is re-spelled three times with a random combination of: recasing of mnemonics, "
         "literal operands and register names; widening of existing blanks with blanks and tabs and insertion of blanks where the pattern "
-        "has none; trailing and block comments; permutation of the rules and re-partition into 1-3 blocks; consistent label renaming. "
+        "has none; trailing comments, and block comments at token boundaries inside the line (holding separators, parentheses and braces); permutation of the rules and re-partition into 1-3 blocks; consistent label renaming. "
         "asm::assemble must give the same success/failure and the same bits (symbols equal up to the renaming) for every spelling, equal "
         "to the result the generator computes from the language definition; the Lean model is run on every spelling too. A blank "
         "inserted inside a mnemonic is a separate stream whose differences must be attributed by the model to finding F10. "
@@ -33,6 +33,15 @@ def variant(rng, p):
         def blanks(minimum=0, r=rng):
             n = r.choice([0, 1, 1, 2, 3]) if minimum == 0 else r.choice([1, 1, 2, 4])
             return "".join(r.choice(" \t") for _ in range(n))
+        if rng.random() < 0.4:
+            # block comments at token boundaries inside the line, some holding the very characters the matcher looks for
+            # (separators, parentheses, braces): a comment is no part of the instruction
+            plain = blanks
+            def blanks(minimum=0, r=rng, plain=plain):
+                if r.random() < 0.25:
+                    return plain(0) + r.choice([";* c *;", ";*(*;", ";* ) *;", ";*,*;", ";* - *;", ";* + *;", ";*{*;", ";* ;* n *; *;", ";*1*;"]) + plain(0)
+                return plain(minimum)
+            which.append("inline_comments")
         kw["blanks"] = blanks
         which.append("blanks")
     if rng.random() < 0.5:
